@@ -609,7 +609,11 @@ def m_str_parse(e,run,a,f):
             for d in digs: val=val*10+d
             if val>=(1<<64): return err(Opaque('ParseIntError'))
             return ok(Int(64,False,val))
-        if len(digs)>20: raise Unsupported('symbolic digits > 20')
+        if len(digs)>20:
+            # more than 20 digits: overflow unless all leading digits are zero
+            head=digs[:len(digs)-20]; digs=digs[len(digs)-20:]
+            nz=[(d!=0) if not isinstance(d,int) else z3.BoolVal(d!=0) for d in head]
+            if run.branch_bool(Bool(z3.Or(*nz)),'parseoverflow'): return err(Opaque('ParseIntError'))
         acc=z3.BitVecVal(0,128)
         for d in digs: acc=acc*10+(z3.BitVecVal(d,128) if isinstance(d,int) else d)
         if len(digs)>=20:
@@ -1056,7 +1060,7 @@ def register_all(E):
     M(r'^(std::string::)?String::(len)$',m_len)
     M(r'^(std::string::)?String::is_empty$',m_is_empty)
     M(r'^(std::string::)?String::from_utf8$',m_from_utf8)
-    M(r'^(std::|core::)?str::from_utf8$',m_from_utf8)
+    M(r'^((std::|core::)?str::)?from_utf8$',m_from_utf8)
     M(r'^core::str::<impl str>::len$',m_len)
     M(r'^core::str::<impl str>::is_empty$',m_is_empty)
     M(r'<impl str>::replace$',m_replace)
